@@ -27,7 +27,7 @@ RULE = ("random-content NP1 / NP2.4 recordings (bin and cbin) with spike trains 
 ASSUMPTIONS = ["spike times are sorted; a spike is identified by (sample, peak channel): a unit may hold two spikes on one sample (double detection)",
                "compressed inputs are always given a scratch_dir (see DESIGN.md section 5 C13 harness note)",
                "neighbourhood = sites within 200 um of the peak site in the reader's (sorted) channel order"]
-REQUIRED = {"extractions": 6, "rows_compared": 300, "row_sets_exactly_once": 3, "orders_executed": 6, "loader_checks": 3, "units_counted": 20, "scratch_histories": 2, "caller_headers_with_other_geometry": 1, "headers_announcing_fewer_samples": 1, "decompress_faults_injected": 1, "large_units_checked": 1}
+REQUIRED = {"extractions_from_permuted_mixed_gain_recordings": 1, "rows_compared_with_raw_times_gain": 200, "extractions": 6, "rows_compared": 300, "row_sets_exactly_once": 3, "orders_executed": 6, "loader_checks": 3, "units_counted": 20, "scratch_histories": 2, "caller_headers_with_other_geometry": 1, "headers_announcing_fewer_samples": 1, "decompress_faults_injected": 1, "large_units_checked": 1}
 CASE_TIMEOUT = 300.0
 MAX_PROCS = 8
 OFF, LEN = 42, 128
@@ -69,7 +69,10 @@ def make_input(rng, d, chunk, max_wf, kind=None, ns=None, trim=None, stale_heade
         ns = (ns // chunk) * chunk + int(rng.integers(LEN - OFF + 1, LEN + 1))
     # a fifth of the headers were last written before acquisition ended (fewer samples announced than the file holds): the recording is what the file holds
     claim = ns - int(rng.integers(300, 2500)) if ((rng.random() < 0.2) if stale_header is None else stale_header) else None
-    rec = G.make(rng, kind=kind, ns=ns, gains=G.random_gains(rng), content="random", nsync=int(rng.choice([1, 1, 1, 0])), claim_ns=claim)      # also recordings saved without the sync channel
+    # (round 22) NP1 recordings whose sites were saved in an order that is not the probe order, each channel with its own AP gain: the volts-per-bit
+    # of exposed channel k is the one of the FILE column that holds it
+    sites = G.draw_sites(rng, kind, 384, "random") if (kind == "3B2" and rng.random() < 0.8) else None
+    rec = G.make(rng, kind=kind, sites=sites, ns=ns, gains=G.random_gains(rng), content="random", nsync=int(rng.choice([1, 1, 1, 0])), claim_ns=claim)      # also recordings saved without the sync channel
     rec.claim = claim
     b = G.write(rec, Path(d) / "rec")
     if rng.random() < 0.4 and claim is None:
@@ -124,7 +127,7 @@ def neighbours(h, radius=200.0):
     return nb, width
 
 
-def judge_output(res, out, sr, rec, times, clus, chans, max_wf, label, off=OFF, length=LEN, h=None):
+def judge_output(res, out, sr, rec, times, clus, chans, max_wf, label, off=OFF, length=LEN, h=None, sort=True):
     """saved files vs the source-window model (neighbourhoods from the header the caller handed in, else from the recording's own geometry)"""
     ns, nc = rec.ns, rec.n          # (the length of the FILE, from the generator - not what a reader makes of the header)
     tr = np.load(out / "waveforms.traces.npy", mmap_mode="r")
@@ -157,7 +160,12 @@ def judge_output(res, out, sr, rec, times, clus, chans, max_wf, label, off=OFF, 
     res.check(table["cluster"].is_monotonic_increasing, "table:cluster-order", f"{label}: rows not grouped by ascending cluster")
     # ---- row by row against the source
     idx = np.arange(nw) if nw <= 400 else np.unique(np.r_[0, nw - 1, np.random.default_rng(nw).choice(nw, 400, replace=False)])
-    nbad = 0
+    nbad = nbad_own = 0
+    own_order = None
+    if getattr(rec, "order", None) is not None and getattr(rec, "s2v", None) is not None and getattr(rec, "raw", None) is not None and rec.raw.shape[0] == ns:
+        own_order = np.asarray(rec.order, int) if sort else np.arange(nc)      # (the order the CALLER asked the reader for)
+        if sort and not np.array_equal(own_order, np.arange(nc)) and len(np.unique(rec.s2v[:nc])) > 1:
+            res.count("extractions_from_permuted_mixed_gain_recordings")
     for i in idx:
         s, pk = int(table["sample"][i]), int(table["peak_channel"][i])
         want_ch = np.full(width, nc)
@@ -171,6 +179,16 @@ def judge_output(res, out, sr, rec, times, clus, chans, max_wf, label, off=OFF, 
         real = want_ch < nc
         exp[real] = src[:, want_ch[real]].T
         got = np.asarray(tr[i])
+        # ... and against the source as the HARNESS reads it (round 22): raw samples of the generator x the volts-per-bit of the generator, in the channel
+        # order the reader exposes - the reader is the route the extraction itself takes, a wrong calibration there moves both sides of the comparison above
+        if got.shape == exp.shape and own_order is not None:
+            own = rec.raw[s - off:s - off + length][:, own_order[want_ch[real]]].astype(np.float64).T * rec.s2v[own_order[want_ch[real]]][:, None]
+            res.count("rows_compared_with_raw_times_gain")
+            if np.any(np.abs(got[real].astype(np.float64) - own) > 2.0 ** -22 * np.abs(own)):
+                nbad_own += 1
+                if nbad_own <= 2:
+                    res.violation("traces:row-differs-from-raw-times-gain", f"{label}: row {i} (sample {s}, peak {pk}): the saved traces are not the raw samples of the "
+                                  f"window times each channel's volts-per-bit ({int(np.sum(np.abs(got[real].astype(np.float64) - own) > 2.0 ** -22 * np.abs(own)))} values)")
         if got.shape != exp.shape or not np.array_equal(got, exp, equal_nan=True):
             nbad += 1
             if nbad <= 3:
@@ -299,7 +317,7 @@ def run_case(case):
             if outs:
                 sr = spikeglx.Reader(b, sort=sort_flag)
                 res.count("extractions")
-                table = judge_output(res, outs[0], sr, rec, times, clus, chans, max_wf, label, h=h_other)
+                table = judge_output(res, outs[0], sr, rec, times, clus, chans, max_wf, label, h=h_other, sort=sort_flag)
                 try:
                     loader_checks(res, WE, outs[0], table, label)
                 except Exception as e:
